@@ -265,7 +265,7 @@ func famDerGrammar(k *mon.Case) {
 	// every parser gets its own copy of the input: it must leave it alone, and the signature it
 	// returns must not depend on the caller's buffer afterwards (the buffers are scrambled before
 	// the values are compared below)
-	bufD, bufL, bufB := append([]byte{}, raw...), append([]byte{}, raw...), append([]byte{}, raw...)
+	bufD, bufL, bufB := exact(raw), exact(raw), exact(raw)
 	dsig, derr := ecdsa.ParseDERSignature(bufD)
 	lerr := ecdsa.VerifyLowS(bufL)
 	bsig, berr := ecdsa.ParseSignature(bufB)
